@@ -91,438 +91,7 @@ impl WalRecord {
 
 } // impl
 
-// ------------------------------------------------------------------ spec-level round trip of record bodies
-pub proof fn lemma_segs_roundtrip(p: Seq<u8>, pre: Seq<u8>, s: Seq<(u64, u64)>, post: Seq<u8>, k: nat)
-    requires p == pre + segs_enc(s) + post, pre.len() == 12, k <= s.len(),
-    ensures segs_dec(p, 12, k) == s.take(k as int), segs_enc(s.take(k as int)).len() == 16 * k,
-    decreases k
-{
-    if k == 0 {
-        assert(s.take(0) =~= Seq::<(u64, u64)>::empty());
-    } else {
-        let j = (k - 1) as int;
-        lemma_segs_roundtrip(p, pre, s, post, j as nat);
-        lemma_segs_split(s, k as int);
-        lemma_le64_roundtrip(s[j].0);
-        lemma_le64_roundtrip(s[j].1);
-        lemma_segs_len(s);
-        lemma_segs_prefix(s, k as int);
-        let e = segs_enc(s);
-        lemma_segs_len(s.take(j));
-        lemma_segs_len(s.take(k as int));
-        let ek = segs_enc(s.take(k as int));
-        assert(ek == e.subrange(0, 16 * (k as int)));
-        assert(ek =~= segs_enc(s.take(j)) + le64(s[j].0) + le64(s[j].1));
-        assert(ek.subrange(16 * j, 16 * j + 8) =~= le64(s[j].0));
-        assert(ek.subrange(16 * j + 8, 16 * j + 16) =~= le64(s[j].1));
-        assert(e.subrange(16 * j, 16 * j + 8) =~= ek.subrange(16 * j, 16 * j + 8));
-        assert(e.subrange(16 * j + 8, 16 * j + 16) =~= ek.subrange(16 * j + 8, 16 * j + 16));
-        assert(p.subrange(12 + 16 * j, 12 + 16 * j + 8) =~= le64(s[j].0)) by {
-            assert(e.subrange(16 * j, 16 * j + 8) =~= le64(s[j].0));
-        }
-        assert(p.subrange(12 + 16 * j + 8, 12 + 16 * j + 16) =~= le64(s[j].1)) by {
-            assert(e.subrange(16 * j + 8, 16 * j + 16) =~= le64(s[j].1));
-        }
-        assert(s.take(k as int) =~= s.take(j).push(s[j]));
-    }
-}
-pub proof fn lemma_segs_split(s: Seq<(u64, u64)>, k: int)
-    requires 1 <= k <= s.len(),
-    ensures segs_enc(s.take(k)) == segs_enc(s.take(k - 1)) + le64(s[k - 1].0) + le64(s[k - 1].1),
-{
-    assert(s.take(k).drop_last() =~= s.take(k - 1));
-    assert(s.take(k).last() == s[k - 1]);
-}
-pub proof fn lemma_segs_len(s: Seq<(u64, u64)>)
-    ensures segs_enc(s).len() == 16 * s.len(),
-    decreases s.len()
-{
-    if s.len() > 0 {
-        lemma_segs_len(s.drop_last());
-        lemma_le64_roundtrip(s.last().0);
-        lemma_le64_roundtrip(s.last().1);
-    }
-}
-/// the encoding of the first k segments is the first 16k bytes of the whole encoding
-pub proof fn lemma_segs_prefix(s: Seq<(u64, u64)>, k: int)
-    requires 0 <= k <= s.len(),
-    ensures segs_enc(s.take(k)) == segs_enc(s).subrange(0, 16 * k), segs_enc(s).len() == 16 * s.len(),
-    decreases s.len() - k
-{
-    lemma_segs_len(s);
-    if k == s.len() {
-        assert(s.take(k) =~= s);
-        assert(segs_enc(s).subrange(0, 16 * k) =~= segs_enc(s));
-    } else {
-        lemma_segs_prefix(s, k + 1);
-        lemma_segs_split(s, k + 1);
-        lemma_segs_len(s.take(k));
-        lemma_le64_roundtrip(s[k].0);
-        lemma_le64_roundtrip(s[k].1);
-        assert(segs_enc(s.take(k)) =~= segs_enc(s.take(k + 1)).subrange(0, 16 * k));
-        assert(segs_enc(s).subrange(0, 16 * (k + 1)).subrange(0, 16 * k) =~= segs_enc(s).subrange(0, 16 * k));
-    }
-}
-
-pub proof fn lemma_rt_begintx(r: SR)
-    requires rec_ok(r), r is BeginTx,
-    ensures rec_dec(rec_enc(r)) == Some(r),
-{
-    let b = rec_enc(r);
-    let p = b.skip(1);
-    assert(b[0] == rec_tag(r));
-    lemma_le32_roundtrip(0); lemma_le64_roundtrip(0);
-    match r {
-        SR::BeginTx { txid } => { lemma_le64_roundtrip(txid); assert(p =~= le64(txid)); }
-        _ => {}
-    }
-}
-
-pub proof fn lemma_rt_committx(r: SR)
-    requires rec_ok(r), r is CommitTx,
-    ensures rec_dec(rec_enc(r)) == Some(r),
-{
-    let b = rec_enc(r);
-    let p = b.skip(1);
-    assert(b[0] == rec_tag(r));
-    lemma_le32_roundtrip(0); lemma_le64_roundtrip(0);
-    match r {
-        SR::CommitTx { txid } => { lemma_le64_roundtrip(txid); assert(p =~= le64(txid)); }
-        _ => {}
-    }
-}
-
-pub proof fn lemma_rt_pagefree(r: SR)
-    requires rec_ok(r), r is PageFree,
-    ensures rec_dec(rec_enc(r)) == Some(r),
-{
-    let b = rec_enc(r);
-    let p = b.skip(1);
-    assert(b[0] == rec_tag(r));
-    lemma_le32_roundtrip(0); lemma_le64_roundtrip(0);
-    match r {
-        SR::PageFree { page_id } => { lemma_le64_roundtrip(page_id); assert(p =~= le64(page_id)); }
-        _ => {}
-    }
-}
-
-pub proof fn lemma_rt_pagewrite(r: SR)
-    requires rec_ok(r), r is PageWrite,
-    ensures rec_dec(rec_enc(r)) == Some(r),
-{
-    let b = rec_enc(r);
-    let p = b.skip(1);
-    assert(b[0] == rec_tag(r));
-    lemma_le32_roundtrip(0); lemma_le64_roundtrip(0);
-    match r {
-        SR::PageWrite { page_id, page } => {
-            lemma_le64_roundtrip(page_id);
-            assert(p =~= le64(page_id) + page);
-            assert(p.subrange(0, 8) =~= le64(page_id));
-            assert(p.skip(8) =~= page);
-        }
-        _ => {}
-    }
-}
-
-pub proof fn lemma_rt_createlabel(r: SR)
-    requires rec_ok(r), r is CreateLabel,
-    ensures rec_dec(rec_enc(r)) == Some(r),
-{
-    let b = rec_enc(r);
-    let p = b.skip(1);
-    assert(b[0] == rec_tag(r));
-    lemma_le32_roundtrip(0); lemma_le64_roundtrip(0);
-    match r {
-        SR::CreateLabel { name, label_id } => {
-            lemma_le32_roundtrip(label_id); lemma_le32_roundtrip(name.len() as u32);
-            assert(p =~= le32(label_id) + le32(name.len() as u32) + name);
-            assert(p.subrange(0, 4) =~= le32(label_id));
-            assert(p.subrange(4, 8) =~= le32(name.len() as u32));
-            assert(p.subrange(8, 8 + name.len() as int) =~= name);
-        }
-        _ => {}
-    }
-}
-
-pub proof fn lemma_rt_createnode(r: SR)
-    requires rec_ok(r), r is CreateNode,
-    ensures rec_dec(rec_enc(r)) == Some(r),
-{
-    let b = rec_enc(r);
-    let p = b.skip(1);
-    assert(b[0] == rec_tag(r));
-    lemma_le32_roundtrip(0); lemma_le64_roundtrip(0);
-    match r {
-        SR::CreateNode { external_id, label_id, internal_id } => {
-            lemma_le64_roundtrip(external_id); lemma_le32_roundtrip(label_id); lemma_le32_roundtrip(internal_id);
-            assert(p =~= le64(external_id) + le32(label_id) + le32(internal_id));
-            assert(p.subrange(0, 8) =~= le64(external_id));
-            assert(p.subrange(8, 12) =~= le32(label_id));
-            assert(p.subrange(12, 16) =~= le32(internal_id));
-        }
-        _ => {}
-    }
-}
-
-pub proof fn lemma_rt_addnodelabel(r: SR)
-    requires rec_ok(r), r is AddNodeLabel,
-    ensures rec_dec(rec_enc(r)) == Some(r),
-{
-    let b = rec_enc(r);
-    let p = b.skip(1);
-    assert(b[0] == rec_tag(r));
-    lemma_le32_roundtrip(0); lemma_le64_roundtrip(0);
-    match r {
-        SR::AddNodeLabel { node, label_id } => {
-            lemma_le32_roundtrip(node); lemma_le32_roundtrip(label_id);
-            assert(p =~= le32(node) + le32(label_id));
-            assert(p.subrange(0, 4) =~= le32(node));
-            assert(p.subrange(4, 8) =~= le32(label_id));
-        }
-        _ => {}
-    }
-}
-
-pub proof fn lemma_rt_removenodelabel(r: SR)
-    requires rec_ok(r), r is RemoveNodeLabel,
-    ensures rec_dec(rec_enc(r)) == Some(r),
-{
-    let b = rec_enc(r);
-    let p = b.skip(1);
-    assert(b[0] == rec_tag(r));
-    lemma_le32_roundtrip(0); lemma_le64_roundtrip(0);
-    match r {
-        SR::RemoveNodeLabel { node, label_id } => {
-            lemma_le32_roundtrip(node); lemma_le32_roundtrip(label_id);
-            assert(p =~= le32(node) + le32(label_id));
-            assert(p.subrange(0, 4) =~= le32(node));
-            assert(p.subrange(4, 8) =~= le32(label_id));
-        }
-        _ => {}
-    }
-}
-
-pub proof fn lemma_rt_createedge(r: SR)
-    requires rec_ok(r), r is CreateEdge,
-    ensures rec_dec(rec_enc(r)) == Some(r),
-{
-    let b = rec_enc(r);
-    let p = b.skip(1);
-    assert(b[0] == rec_tag(r));
-    lemma_le32_roundtrip(0); lemma_le64_roundtrip(0);
-    match r {
-        SR::CreateEdge { src, rel, dst } => {
-            lemma_le32_roundtrip(src); lemma_le32_roundtrip(rel); lemma_le32_roundtrip(dst);
-            assert(p =~= le32(src) + le32(rel) + le32(dst));
-            assert(p.subrange(0, 4) =~= le32(src));
-            assert(p.subrange(4, 8) =~= le32(rel));
-            assert(p.subrange(8, 12) =~= le32(dst));
-        }
-        _ => {}
-    }
-}
-
-pub proof fn lemma_rt_tombstoneedge(r: SR)
-    requires rec_ok(r), r is TombstoneEdge,
-    ensures rec_dec(rec_enc(r)) == Some(r),
-{
-    let b = rec_enc(r);
-    let p = b.skip(1);
-    assert(b[0] == rec_tag(r));
-    lemma_le32_roundtrip(0); lemma_le64_roundtrip(0);
-    match r {
-        SR::TombstoneEdge { src, rel, dst } => {
-            lemma_le32_roundtrip(src); lemma_le32_roundtrip(rel); lemma_le32_roundtrip(dst);
-            assert(p =~= le32(src) + le32(rel) + le32(dst));
-            assert(p.subrange(0, 4) =~= le32(src));
-            assert(p.subrange(4, 8) =~= le32(rel));
-            assert(p.subrange(8, 12) =~= le32(dst));
-        }
-        _ => {}
-    }
-}
-
-pub proof fn lemma_rt_tombstonenode(r: SR)
-    requires rec_ok(r), r is TombstoneNode,
-    ensures rec_dec(rec_enc(r)) == Some(r),
-{
-    let b = rec_enc(r);
-    let p = b.skip(1);
-    assert(b[0] == rec_tag(r));
-    lemma_le32_roundtrip(0); lemma_le64_roundtrip(0);
-    match r {
-        SR::TombstoneNode { node } => {
-            lemma_le32_roundtrip(node);
-            assert(p =~= le32(node));
-            assert(p.subrange(0, 4) =~= le32(node));
-        }
-        _ => {}
-    }
-}
-
-pub proof fn lemma_rt_checkpoint(r: SR)
-    requires rec_ok(r), r is Checkpoint,
-    ensures rec_dec(rec_enc(r)) == Some(r),
-{
-    let b = rec_enc(r);
-    let p = b.skip(1);
-    assert(b[0] == rec_tag(r));
-    lemma_le32_roundtrip(0); lemma_le64_roundtrip(0);
-    match r {
-        SR::Checkpoint { up_to_txid, epoch, properties_root, stats_root } => {
-            lemma_le64_roundtrip(up_to_txid); lemma_le64_roundtrip(epoch); lemma_le64_roundtrip(properties_root); lemma_le64_roundtrip(stats_root);
-            assert(p =~= le64(up_to_txid) + le64(epoch) + le64(properties_root) + le64(stats_root));
-            assert(p.subrange(0, 8) =~= le64(up_to_txid));
-            assert(p.subrange(8, 16) =~= le64(epoch));
-            assert(p.subrange(16, 24) =~= le64(properties_root));
-            assert(p.subrange(24, 32) =~= le64(stats_root));
-        }
-        _ => {}
-    }
-}
-
-pub proof fn lemma_rt_manifestswitch(r: SR)
-    requires rec_ok(r), r is ManifestSwitch,
-    ensures rec_dec(rec_enc(r)) == Some(r),
-{
-    let b = rec_enc(r);
-    let p = b.skip(1);
-    assert(b[0] == rec_tag(r));
-    lemma_le32_roundtrip(0); lemma_le64_roundtrip(0);
-    match r {
-        SR::ManifestSwitch { epoch, segments, properties_root, stats_root } => {
-            lemma_le64_roundtrip(epoch); lemma_le32_roundtrip(segments.len() as u32);
-            lemma_le64_roundtrip(properties_root); lemma_le64_roundtrip(stats_root);
-            lemma_segs_len(segments);
-            let pre = le64(epoch) + le32(segments.len() as u32);
-            let post = le64(properties_root) + le64(stats_root);
-            assert(p =~= pre + segs_enc(segments) + post);
-            assert(p.subrange(0, 8) =~= le64(epoch));
-            assert(p.subrange(8, 12) =~= le32(segments.len() as u32));
-            let end = 12 + 16 * segments.len() as int;
-            assert(p.subrange(end, end + 8) =~= le64(properties_root));
-            assert(p.subrange(end + 8, end + 16) =~= le64(stats_root));
-            lemma_segs_roundtrip(p, pre, segments, post, segments.len());
-            assert(segments.take(segments.len() as int) =~= segments);
-        }
-        _ => {}
-    }
-}
-
-pub proof fn lemma_rt_setnodeproperty(r: SR)
-    requires rec_ok(r), r is SetNodeProperty,
-    ensures rec_dec(rec_enc(r)) == Some(r),
-{
-    let b = rec_enc(r);
-    let p = b.skip(1);
-    assert(b[0] == rec_tag(r));
-    lemma_le32_roundtrip(0); lemma_le64_roundtrip(0);
-    match r {
-        SR::SetNodeProperty { node, key, value } => {
-            lemma_le32_roundtrip(node); lemma_le32_roundtrip(key.len() as u32);
-            assert(p =~= le32(node) + le32(key.len() as u32) + key + sv_enc(value));
-            assert(p.subrange(0, 4) =~= le32(node));
-            assert(p.subrange(4, 8) =~= le32(key.len() as u32));
-            assert(p.subrange(8, 8 + key.len() as int) =~= key);
-            assert(p.skip(8 + key.len() as int) =~= sv_enc(value) + Seq::<u8>::empty());
-            lemma_roundtrip(value, Seq::<u8>::empty());
-        }
-        _ => {}
-    }
-}
-
-pub proof fn lemma_rt_setedgeproperty(r: SR)
-    requires rec_ok(r), r is SetEdgeProperty,
-    ensures rec_dec(rec_enc(r)) == Some(r),
-{
-    let b = rec_enc(r);
-    let p = b.skip(1);
-    assert(b[0] == rec_tag(r));
-    lemma_le32_roundtrip(0); lemma_le64_roundtrip(0);
-    match r {
-        SR::SetEdgeProperty { src, rel, dst, key, value } => {
-            lemma_le32_roundtrip(src); lemma_le32_roundtrip(rel); lemma_le32_roundtrip(dst); lemma_le32_roundtrip(key.len() as u32);
-            assert(p =~= le32(src) + le32(rel) + le32(dst) + le32(key.len() as u32) + key + sv_enc(value));
-            assert(p.subrange(0, 4) =~= le32(src));
-            assert(p.subrange(4, 8) =~= le32(rel));
-            assert(p.subrange(8, 12) =~= le32(dst));
-            assert(p.subrange(12, 16) =~= le32(key.len() as u32));
-            assert(p.subrange(16, 16 + key.len() as int) =~= key);
-            assert(p.skip(16 + key.len() as int) =~= sv_enc(value) + Seq::<u8>::empty());
-            lemma_roundtrip(value, Seq::<u8>::empty());
-        }
-        _ => {}
-    }
-}
-
-pub proof fn lemma_rt_removenodeproperty(r: SR)
-    requires rec_ok(r), r is RemoveNodeProperty,
-    ensures rec_dec(rec_enc(r)) == Some(r),
-{
-    let b = rec_enc(r);
-    let p = b.skip(1);
-    assert(b[0] == rec_tag(r));
-    lemma_le32_roundtrip(0); lemma_le64_roundtrip(0);
-    match r {
-        SR::RemoveNodeProperty { node, key } => {
-            lemma_le32_roundtrip(node); lemma_le32_roundtrip(key.len() as u32);
-            assert(p =~= le32(node) + le32(key.len() as u32) + key);
-            assert(p.subrange(0, 4) =~= le32(node));
-            assert(p.subrange(4, 8) =~= le32(key.len() as u32));
-            assert(p.subrange(8, 8 + key.len() as int) =~= key);
-        }
-        _ => {}
-    }
-}
-
-pub proof fn lemma_rt_removeedgeproperty(r: SR)
-    requires rec_ok(r), r is RemoveEdgeProperty,
-    ensures rec_dec(rec_enc(r)) == Some(r),
-{
-    let b = rec_enc(r);
-    let p = b.skip(1);
-    assert(b[0] == rec_tag(r));
-    lemma_le32_roundtrip(0); lemma_le64_roundtrip(0);
-    match r {
-        SR::RemoveEdgeProperty { src, rel, dst, key } => {
-            lemma_le32_roundtrip(src); lemma_le32_roundtrip(rel); lemma_le32_roundtrip(dst); lemma_le32_roundtrip(key.len() as u32);
-            assert(p =~= le32(src) + le32(rel) + le32(dst) + le32(key.len() as u32) + key);
-            assert(p.subrange(0, 4) =~= le32(src));
-            assert(p.subrange(4, 8) =~= le32(rel));
-            assert(p.subrange(8, 12) =~= le32(dst));
-            assert(p.subrange(12, 16) =~= le32(key.len() as u32));
-            assert(p.subrange(16, 16 + key.len() as int) =~= key);
-        }
-        _ => {}
-    }
-}
-
-/// C25.wal.roundtrip (spec level): the reference record decoder inverts the record format.
-pub proof fn lemma_rec_roundtrip(r: SR)
-    requires rec_ok(r),
-    ensures rec_dec(rec_enc(r)) == Some(r),
-{
-    match r {
-        SR::BeginTx { .. } => { lemma_rt_begintx(r); }
-        SR::CommitTx { .. } => { lemma_rt_committx(r); }
-        SR::PageFree { .. } => { lemma_rt_pagefree(r); }
-        SR::PageWrite { .. } => { lemma_rt_pagewrite(r); }
-        SR::CreateLabel { .. } => { lemma_rt_createlabel(r); }
-        SR::CreateNode { .. } => { lemma_rt_createnode(r); }
-        SR::AddNodeLabel { .. } => { lemma_rt_addnodelabel(r); }
-        SR::RemoveNodeLabel { .. } => { lemma_rt_removenodelabel(r); }
-        SR::CreateEdge { .. } => { lemma_rt_createedge(r); }
-        SR::TombstoneEdge { .. } => { lemma_rt_tombstoneedge(r); }
-        SR::TombstoneNode { .. } => { lemma_rt_tombstonenode(r); }
-        SR::Checkpoint { .. } => { lemma_rt_checkpoint(r); }
-        SR::ManifestSwitch { .. } => { lemma_rt_manifestswitch(r); }
-        SR::SetNodeProperty { .. } => { lemma_rt_setnodeproperty(r); }
-        SR::SetEdgeProperty { .. } => { lemma_rt_setedgeproperty(r); }
-        SR::RemoveNodeProperty { .. } => { lemma_rt_removenodeproperty(r); }
-        SR::RemoveEdgeProperty { .. } => { lemma_rt_removeedgeproperty(r); }
-    }
-}
+//@include _wal_roundtrip.rs
 
 /// C25.wal.roundtrip — for every record the encoder accepts, decoding its encoding yields a record
 /// with the same content (composition of the encode_body / decode_body contracts and the lemma).
